@@ -7,10 +7,26 @@ import numpy as np
 NG = 3          # guesses of the synthetic attack selection function
 
 
-def make_set(rng, n, L, W, id0):
-    import scared
+def gen_arrays(rng, n, L, W):
+    """the raw content of one trace set (no library involved): the same stream make_set draws from"""
     samples = rng.randint(0, 16, size=(n, L)).astype('int16')
     v = rng.randint(0, 9, size=(n, W)).astype('uint8')
+    return samples, v
+
+
+def frame_positions(frame, L):
+    """a frame as the list of 0-based sample positions it designates, in order (Python slice / index semantics)"""
+    fr = FRAMES[frame]
+    if fr is None or fr is Ellipsis:
+        return list(range(L))
+    if isinstance(fr, slice):
+        return list(range(L))[fr]
+    return [int(i) for i in fr]
+
+
+def make_set(rng, n, L, W, id0):
+    import scared
+    samples, v = gen_arrays(rng, n, L, W)
     ids = np.arange(id0, id0 + n, dtype='int64')
     ths = scared.traces.read_ths_from_ram(samples=samples, v=v, id=ids)
     return ths, samples, v, ids
@@ -26,11 +42,15 @@ def preprocesses():
     @scared.preprocess
     def twice(traces):
         return traces * 2
-    return {'plus1': plus1, 'twice': twice, 'square': scared.preprocesses.square}
+    @scared.preprocess
+    def cumsum(traces):
+        # not sample-wise: every output sample mixes the samples to its left (frame selection must come first)
+        return np.cumsum(traces, axis=1)
+    return {'plus1': plus1, 'twice': twice, 'square': scared.preprocesses.square, 'cumsum': cumsum}
 
 
 FRAMES = {'all': None, 'ellipsis': ..., 'slice': slice(1, 5), 'step': slice(0, 6, 2), 'list': [0, 3, 4], 'array': np.array([5, 1, 2])}
-CHAINS = [[], ['square'], ['plus1', 'twice'], ['twice', 'plus1'], ['square', 'plus1']]
+CHAINS = [[], ['square'], ['plus1', 'twice'], ['twice', 'plus1'], ['square', 'plus1'], ['cumsum'], ['plus1', 'cumsum']]
 KINDS = ['CPA', 'DPA', 'ANOVA', 'NICV', 'SNR', 'MIA']
 
 
